@@ -1,94 +1,1188 @@
-import ScyllaVerif.Model.Carrier
 /-
-Helper lemmas for C17: the per-page type check of the pager's typed stream.
+Invariants of the pager transition system (`Model/Pager.lean`) and their preservation by every step.
+Used by `Props/C07.lean`.
 -/
-namespace ScyllaVerif.Proofs.Pager
-open ScyllaVerif.Cql ScyllaVerif.Carrier
+import ScyllaVerif.Model.Pager
 
-/-- `o` is a legitimate output about page `i` whose columns pass / fail the check: a row only if they pass,
-a type-check error only if they fail. -/
-def OutOk (ok : Bool) (i : Nat) (o : StreamOut) : Prop :=
-  (o = .row i ∧ ok = true) ∨ (o = .typeErr i ∧ ok = false)
+set_option linter.unusedSimpArgs false
 
-/-- The rows of one page: provided the page is fresh, or the flag is unset, or the page is known to pass. -/
-theorem pageRows_ok (ok : Bool) (i : Nat) : ∀ (n : Nat) (fresh flag : Bool),
-    (fresh = true ∨ flag = false ∨ ok = true) → ∀ o, o ∈ (pageRows ok i n fresh flag).1 → OutOk ok i o := by
+namespace ScyllaVerif.Pager
+
+/-! ### list facts about the page script -/
+
+theorem headD_drop (pages : List Page) (k : Nat) :
+    (pages.drop k).headD ([], none) = pageAt pages k := by
+  induction pages generalizing k with
+  | nil => simp [pageAt]
+  | cons p t ih => cases k <;> simp [pageAt]
+
+theorem stateBefore_succ (pages : List Page) (k : Nat) :
+    stateBefore pages (k+1) = (pageAt pages k).2 := rfl
+theorem stateBefore_zero (pages : List Page) : stateBefore pages 0 = none := rfl
+
+def LogOk (pages : List Page) (log : List (Nat × Option PState)) (k : Nat) : Prop :=
+  ∀ e ∈ log, e.2 = stateBefore pages e.1 ∧ e.1 ≤ k
+
+theorem logOk_append {pages log k st k'} (h : LogOk pages log k) (hst : st = stateBefore pages k)
+    (hk : k ≤ k') : LogOk pages (log ++ [(k, st)]) k' := by
+  intro e he
+  simp only [List.mem_append, List.mem_singleton] at he
+  rcases he with he | he
+  · have := h e he; exact ⟨this.1, by omega⟩
+  · subst he; exact ⟨hst, hk⟩
+
+structure PInvA (pages : List Page) (s : St) : Prop where
+  todo_eq : s.todo = pages.drop s.served
+  log_ok : LogOk pages s.log s.served
+  pc_first : s.pc = .first → s.served = 0
+  pc_fetch : ∀ st, s.pc = .fetch st → st = stateBefore pages s.served
+  pc_send : ∀ it st, s.pc = .send it (some st) → some st = stateBefore pages s.served
+  pc_err : ∀ e nx, s.pc = .send (.err e) nx → nx = none
+
+theorem pinvA_prod {pages : List Page} {s : St} (h : PInvA pages s) : PInvA pages (stepProd s) := by
+  obtain ⟨h1, h4, h5, h6, h7, h8⟩ := h
+  have hhd : s.todo.headD ([], none) = pageAt pages s.served := by rw [h1, headD_drop]
+  have htl : s.todo.tail = pages.drop (s.served + 1) := by rw [h1]; simp
+  have hsb := stateBefore_succ pages s.served
+  unfold stepProd
+  split
+  next hpc =>
+    have hs0 := h5 hpc
+    have hlog : ∀ k', s.served ≤ k' → LogOk pages (s.log ++ [(s.served, none)]) k' :=
+      fun k' hk => logOk_append h4 (by rw [hs0]; rfl) hk
+    split
+    · exact ⟨h1, hlog _ (Nat.le_refl _), h5, h6, h7, h8⟩
+    · exact ⟨h1, hlog _ (Nat.le_refl _), by simp, by simp, by simp, by simp⟩
+    · exact ⟨h1, hlog _ (Nat.le_refl _), by simp, by simp, by simp, by simp⟩
+    · refine ⟨htl, hlog _ (Nat.le_succ _), ?_, ?_, ?_, ?_⟩
+      all_goals (simp only [hhd]; cases hp : (pageAt pages s.served).2 <;> simp [pcAfter, hsb, hp])
+  next st hpc =>
+    have hst := h6 st hpc
+    have hlog : ∀ k', s.served ≤ k' → LogOk pages (s.log ++ [(s.served, st)]) k' :=
+      fun k' hk => logOk_append h4 hst hk
+    split
+    · exact ⟨h1, hlog _ (Nat.le_refl _), h5, h6, h7, h8⟩
+    · exact ⟨h1, hlog _ (Nat.le_refl _), by simp, by simp, by simp, by simp⟩
+    · exact ⟨h1, hlog _ (Nat.le_refl _), by simp, by simp, by simp, by simp⟩
+    · refine ⟨htl, hlog _ (Nat.le_succ _), by simp, by simp, ?_, by simp⟩
+      intro it st' heq
+      simp only [PC.send.injEq] at heq
+      rw [hsb, ← hhd, heq.2]
+  next it nx hpc =>
+    split
+    · exact ⟨h1, h4, by simp, by simp, by simp, by simp⟩
+    · split
+      · exact ⟨h1, h4, h5, h6, h7, h8⟩
+      · refine ⟨h1, h4, ?_, ?_, ?_, ?_⟩
+        all_goals (cases nx <;> simp [pcAfter])
+        exact (h7 it _ hpc)
+  next => exact ⟨h1, h4, h5, h6, h7, h8⟩
+
+theorem pinvA_poll {pages : List Page} {s : St} (h : PInvA pages s) : PInvA pages (stepPoll s) := by
+  obtain ⟨h1, h4, h5, h6, h7, h8⟩ := h
+  unfold stepPoll
+  repeat' split
+  all_goals exact ⟨h1, h4, h5, h6, h7, h8⟩
+
+theorem pinvA_drop {pages : List Page} {s : St} (h : PInvA pages s) : PInvA pages (stepDrop s) := by
+  obtain ⟨h1, h4, h5, h6, h7, h8⟩ := h
+  unfold stepDrop
+  split
+  all_goals exact ⟨h1, h4, h5, h6, h7, h8⟩
+
+theorem pinvA_init (pages : List Page) (faults : List Attempt) : PInvA pages (init pages faults) := by
+  constructor <;> simp [init, LogOk]
+
+/-! ### row accounting of the producer -/
+
+theorem rowsBefore_succ (pages : List Page) (k : Nat) :
+    rowsBefore pages (k + 1) = rowsBefore pages k ++ (pageAt pages k).1 := by
+  unfold rowsBefore pageAt
+  rw [List.take_add_one]
+  cases h : pages[k]? <;> simp
+
+theorem rowsBefore_zero (pages : List Page) : rowsBefore pages 0 = [] := by simp [rowsBefore]
+
+theorem servedRows_eq (todo : List Page) :
+    servedRows todo = (todo.headD ([], none)).1 ++
+      (match (todo.headD ([], none)).2 with | some _ => servedRows todo.tail | none => []) := by
+  match todo with
+  | [] => simp [servedRows]
+  | (r, none) :: t => simp [servedRows]
+  | (r, some st) :: t => simp [servedRows]
+
+/-- The producer will send further page requests. -/
+def continuing : PC → Bool
+  | .first => true
+  | .fetch _ => true
+  | .send _ (some _) => true
+  | _ => false
+
+def future (s : St) : List Row := if continuing s.pc then servedRows s.todo else []
+
+structure PInvB (pages : List Page) (s : St) : Prop where
+  total : rowsBefore pages s.served ++ future s ++ s.lost = servedRows pages
+  lost_nil : continuing s.pc = true → s.lost = []
+
+theorem pinvB_init (pages : List Page) (faults : List Attempt) : PInvB pages (init pages faults) := by
+  constructor <;> simp [init, future, continuing, rowsBefore_zero]
+
+theorem pinvB_prod {pages : List Page} {s : St} (hA : PInvA pages s) (h : PInvB pages s) :
+    PInvB pages (stepProd s) := by
+  obtain ⟨h2, h3⟩ := h
+  have h1 := hA.todo_eq
+  have hhd : s.todo.headD ([], none) = pageAt pages s.served := by rw [h1, headD_drop]
+  have hfut := servedRows_eq s.todo
+  rw [hhd] at hfut
+  have hrs := rowsBefore_succ pages s.served
+  unfold stepProd
+  split
+  next hpc =>
+    have hl := h3 (by simp [hpc, continuing])
+    simp only [future, hpc, continuing, if_true, hl, List.append_nil] at h2
+    split
+    · exact ⟨by simpa [future, hpc, continuing, hl] using h2, fun _ => hl⟩
+    · exact ⟨by simpa [future, continuing] using h2, by simp [continuing]⟩
+    · exact ⟨by simpa [future, continuing] using h2, by simp [continuing]⟩
+    · constructor
+      · simp only [future, hhd, hrs, hl, List.append_nil]
+        rw [← h2, hfut]
+        cases hp : (pageAt pages s.served).2 <;> simp [pcAfter, continuing]
+      · intro _; exact hl
+  next st hpc =>
+    have hl := h3 (by simp [hpc, continuing])
+    simp only [future, hpc, continuing, if_true, hl, List.append_nil] at h2
+    split
+    · exact ⟨by simpa [future, hpc, continuing, hl] using h2, fun _ => hl⟩
+    · exact ⟨by simpa [future, continuing] using h2, by simp [continuing]⟩
+    · exact ⟨by simpa [future, continuing] using h2, by simp [continuing]⟩
+    · constructor
+      · simp only [future, hhd, hrs, hl, List.append_nil]
+        rw [← h2, hfut]
+        cases hp : (pageAt pages s.served).2 <;> simp [continuing]
+      · intro _; exact hl
+  next it nx hpc =>
+    split
+    · cases nx with
+      | none => exact ⟨by simpa [future, hpc, continuing] using h2, by simp [continuing]⟩
+      | some st =>
+        have hl := h3 (by simp [hpc, continuing])
+        exact ⟨by simpa [future, hpc, continuing, hl] using h2, by simp [continuing]⟩
+    · split
+      · exact ⟨h2, h3⟩
+      · cases nx with
+        | none => exact ⟨by simpa [future, hpc, continuing, pcAfter] using h2, by simp [pcAfter, continuing]⟩
+        | some st =>
+          exact ⟨by simpa [future, hpc, continuing, pcAfter] using h2,
+                 fun _ => h3 (by simp [hpc, continuing])⟩
+  next => exact ⟨h2, h3⟩
+
+theorem pinvB_poll {pages : List Page} {s : St} (h : PInvB pages s) : PInvB pages (stepPoll s) := by
+  obtain ⟨h2, h3⟩ := h
+  unfold stepPoll
+  repeat' split
+  all_goals exact ⟨h2, h3⟩
+
+theorem pinvB_drop {pages : List Page} {s : St} (h : PInvB pages s) : PInvB pages (stepDrop s) := by
+  obtain ⟨h2, h3⟩ := h
+  unfold stepDrop
+  split
+  all_goals exact ⟨h2, h3⟩
+
+/-! ### what the producer and the channel hold; consumer invariant -/
+
+def chanRows (x : Option Item) : List Row :=
+  match x with
+  | some (.page r) => r
+  | _ => []
+
+def pcRows (x : PC) : List Row :=
+  match x with
+  | .send (.page r) _ => r
+  | _ => []
+
+def chanErr (x : Option Item) : Bool :=
+  match x with
+  | some (.err _) => true
+  | _ => false
+
+def pcErr (x : PC) : Bool :=
+  match x with
+  | .send (.err _) _ => true
+  | _ => false
+
+def chanPages (x : Option Item) : Nat :=
+  match x with
+  | some (.page _) => 1
+  | _ => 0
+
+def pcPages (x : PC) : Nat :=
+  match x with
+  | .send (.page _) _ => 1
+  | _ => 0
+
+structure CInv (pages : List Page) (s : St) : Prop where
+  rows : s.rx ≠ .dropped → s.delivered ++ s.cur ++ chanRows s.chan ++ pcRows s.pc = rowsBefore pages s.served
+  pre : s.delivered <+: servedRows pages
+  unbuilt : s.rx = .unbuilt → (s.pc = .first ∨ s.pc = .done) ∧ s.delivered = [] ∧ s.cur = [] ∧ s.chan = none
+    ∧ s.errs = [] ∧ s.ended = false ∧ s.taken = 0 ∧ s.served = 0
+  first_unbuilt : s.pc = .first → s.rx = .unbuilt
+  ctor : s.ctorErr.isSome = true → s.rx = .unbuilt ∧ s.pc = .done
+  ended_q : s.ended = true → s.pc = .done ∧ s.chan = none ∧ s.cur = []
+  errs_q : s.errs ≠ [] → s.pc = .done ∧ s.chan = none ∧ s.cur = []
+  chan_err : chanErr s.chan = true → s.pc = .done
+  taken_eq : s.rx ≠ .dropped → s.served = s.taken + chanPages s.chan + pcPages s.pc
+  lost_why : s.lost ≠ [] → s.ignored = true ∨ s.ctorErr.isSome = true ∨ s.errs ≠ [] ∨ chanErr s.chan = true
+    ∨ pcErr s.pc = true ∨ s.rx = .dropped
+  dropped_q : s.rx = .dropped → s.chan = none
+
+theorem cinv_init (pages : List Page) (faults : List Attempt) : CInv pages (init pages faults) := by
+  constructor <;> simp [init, chanRows, pcRows, chanErr, pcErr, chanPages, pcPages, rowsBefore_zero]
+
+theorem prefix_of_total {R rb fut lost d x : List Row} (htot : rb ++ fut ++ lost = R) (h : d ++ x = rb) :
+    d <+: R := by
+  refine ⟨x ++ fut ++ lost, ?_⟩
+  rw [← htot, ← h]
+  simp [List.append_assoc]
+
+theorem cinv_poll {pages : List Page} {s : St} (hB : PInvB pages s) (h : CInv pages s) :
+    CInv pages (stepPoll s) := by
+  obtain ⟨c1, c2, c3, c4, c5, c6, c7, c8, c9, c10, c11⟩ := h
+  unfold stepPoll
+  split
+  next hrx =>
+    have c1 := c1 (by simp [hrx])
+    have c9 := c9 (by simp [hrx])
+    have hnd : s.rx ≠ .dropped := by simp [hrx]
+    split
+    next r rest hcur =>
+      have hnew : (s.delivered ++ [r]) ++ (rest ++ chanRows s.chan ++ pcRows s.pc) = rowsBefore pages s.served := by
+        rw [← c1, hcur]; simp
+      refine ⟨fun _ => by simpa [List.append_assoc] using hnew, prefix_of_total hB.total hnew, by simp [hrx],
+        c4, c5, ?_, ?_, c8, fun _ => c9, c10, c11⟩
+      · intro he; have := c6 he; simp_all
+      · intro he; have := c7 he; simp_all
+    next hcur =>
+      split
+      next hch =>
+        simp only [hcur, chanRows, hch, chanPages, List.append_nil] at c1 c9
+        refine ⟨fun _ => by simpa [chanRows, hcur] using c1, c2, by simp [hrx], c4, c5, ?_, ?_, by simp [chanErr],
+          fun _ => by simp [chanPages]; omega, ?_, by simp⟩
+        · intro he; have := c6 he; simp_all
+        · intro he; have := c7 he; simp_all
+        · intro hl; have := c10 hl; simp_all [chanErr]
+      next r rest hch =>
+        simp only [hcur, chanRows, hch, chanPages, List.append_nil] at c1 c9
+        have hnew : (s.delivered ++ [r]) ++ (rest ++ pcRows s.pc) = rowsBefore pages s.served := by
+          rw [← c1]; simp
+        refine ⟨fun _ => by simpa [chanRows, List.append_assoc] using hnew, prefix_of_total hB.total hnew,
+          by simp [hrx], c4, c5, ?_, ?_, by simp [chanErr], fun _ => by simp [chanPages]; omega, ?_, by simp⟩
+        · intro he; have := c6 he; simp_all
+        · intro he; have := c7 he; simp_all
+        · intro hl; have := c10 hl; simp_all [chanErr]
+      next e hch =>
+        have hpc := c8 (by simp [chanErr, hch])
+        simp only [hcur, chanRows, hch, chanPages, List.append_nil] at c1 c9
+        refine ⟨fun _ => by simpa [chanRows, hcur] using c1, c2, by simp [hrx], c4, c5, ?_, ?_, by simp [chanErr],
+          fun _ => by simpa [chanPages] using c9, ?_, by simp⟩
+        · intro he; have := c6 he; simp_all
+        · intro _; exact ⟨hpc, rfl, hcur⟩
+        · intro hl; simp
+      next hch =>
+        split
+        next hpc =>
+          refine ⟨fun _ => c1, c2, by simp [hrx], c4, c5, fun _ => ⟨hpc, hch, hcur⟩, c7, c8, fun _ => c9, c10, c11⟩
+        next => exact ⟨fun _ => c1, c2, c3, c4, c5, c6, c7, c8, fun _ => c9, c10, c11⟩
+  next => exact ⟨c1, c2, c3, c4, c5, c6, c7, c8, c9, c10, c11⟩
+
+theorem cinv_drop {pages : List Page} {s : St} (h : CInv pages s) : CInv pages (stepDrop s) := by
+  obtain ⟨c1, c2, c3, c4, c5, c6, c7, c8, c9, c10, c11⟩ := h
+  unfold stepDrop
+  split
+  next hrx =>
+    refine ⟨by simp, c2, by simp, ?_, ?_, ?_, ?_, by simp [chanErr], by simp, by simp, by simp⟩
+    · intro h; have := c4 h; simp_all
+    · intro h; have := c5 h; simp_all
+    · intro h; have := c6 h; simp_all
+    · intro h; have := c7 h; simp_all
+  next => exact ⟨c1, c2, c3, c4, c5, c6, c7, c8, c9, c10, c11⟩
+
+@[simp] theorem pcRows_pcAfter (nx : Option PState) : pcRows (pcAfter nx) = [] := by
+  cases nx <;> rfl
+@[simp] theorem pcPages_pcAfter (nx : Option PState) : pcPages (pcAfter nx) = 0 := by
+  cases nx <;> rfl
+@[simp] theorem pcErr_pcAfter (nx : Option PState) : pcErr (pcAfter nx) = false := by
+  cases nx <;> rfl
+@[simp] theorem pcAfter_ne_first (nx : Option PState) : pcAfter nx ≠ .first := by
+  cases nx <;> simp [pcAfter]
+
+theorem cinv_prod {pages : List Page} {s : St} (hA : PInvA pages s) (hB : PInvB pages s) (h : CInv pages s) :
+    CInv pages (stepProd s) := by
+  obtain ⟨c1, c2, c3, c4, c5, c6, c7, c8, c9, c10, c11⟩ := h
+  have hhd : s.todo.headD ([], none) = pageAt pages s.served := by rw [hA.todo_eq, headD_drop]
+  have hrs := rowsBefore_succ pages s.served
+  have hhd' : s.todo.head?.getD ([], none) = pageAt pages s.served := by simpa using hhd
+  unfold stepProd
+  split
+  next hpc =>
+    have hrx := c4 hpc
+    obtain ⟨-, u1, u2, u3, u4, u5, u6, u7⟩ := c3 hrx
+    have hl := hB.lost_nil (by simp [hpc, continuing])
+    have hc : s.ctorErr = none := by
+      cases hce : s.ctorErr with
+      | none => rfl
+      | some e => have := (c5 (by simp [hce])).2; simp [hpc] at this
+    split
+    · exact ⟨c1, c2, c3, c4, c5, c6, c7, c8, c9, c10, c11⟩
+    · refine ⟨?_, c2, ?_, ?_, ?_, ?_, ?_, ?_, ?_, ?_, ?_⟩ <;>
+        simp [hrx, u1, u2, u3, u4, u5, u6, u7, chanRows, pcRows, chanErr, chanPages, pcPages, rowsBefore_zero]
+    · refine ⟨?_, c2, ?_, ?_, ?_, ?_, ?_, ?_, ?_, ?_, ?_⟩ <;>
+        simp [hc, u1, u2, u3, u4, u5, u6, u7, chanRows, pcRows, chanErr, chanPages, pcPages, rowsBefore_zero]
+    · have hhd0 : s.todo.head?.getD ([], none) = pageAt pages 0 := by simpa [u7] using hhd
+      have hrs0 : rowsBefore pages 1 = (pageAt pages 0).1 := by simpa [u7, rowsBefore_zero] using hrs
+      refine ⟨?_, c2, ?_, ?_, ?_, ?_, ?_, ?_, ?_, ?_, ?_⟩ <;>
+        simp [hc, hl, hhd0, hrs0, u1, u2, u3, u4, u5, u6, u7, chanRows, chanErr, chanPages, rowsBefore_zero]
+  next st hpc =>
+    have hnu : s.rx ≠ .unbuilt := by
+      intro h; have := (c3 h).1; simp [hpc] at this
+    have hne : s.ended = false := by
+      cases he : s.ended with
+      | false => rfl
+      | true => have := (c6 he).1; simp [hpc] at this
+    have her : s.errs = [] := by
+      cases he : s.errs with
+      | nil => rfl
+      | cons a b => have := (c7 (by simp [he])).1; simp [hpc] at this
+    have hce : chanErr s.chan = false := by
+      cases he : chanErr s.chan with
+      | false => rfl
+      | true => have := c8 he; simp [hpc] at this
+    have hc : s.ctorErr = none := by
+      cases hce : s.ctorErr with
+      | none => rfl
+      | some e => have := (c5 (by simp [hce])).2; simp [hpc] at this
+    simp only [hpc, pcRows, pcPages, List.append_nil, Nat.add_zero] at c1 c9
+    split
+    · exact ⟨by simpa [hpc, pcRows] using c1, c2, c3, c4, c5, c6, c7, c8, by simpa [hpc, pcPages] using c9, c10, c11⟩
+    · refine ⟨?_, c2, ?_, ?_, ?_, ?_, ?_, ?_, ?_, ?_, c11⟩ <;>
+        simp [hnu, hne, her, hce, hc, pcRows, pcPages, pcErr]
+      · simpa [List.append_assoc] using c1
+      · exact c9
+    · refine ⟨?_, c2, ?_, ?_, ?_, ?_, ?_, ?_, ?_, ?_, c11⟩ <;>
+        simp [hnu, hne, her, hce, hc, pcRows, pcPages, pcErr]
+      · simpa [List.append_assoc] using c1
+      · exact c9
+    · refine ⟨?_, c2, ?_, ?_, ?_, ?_, ?_, ?_, ?_, ?_, c11⟩ <;>
+        simp [hnu, hne, her, hce, hc, pcRows, pcPages, pcErr, hhd', hrs]
+      · intro h; rw [← c1 h]; simp
+      · intro h; rw [c9 h]
+      · intro hl; have := hB.lost_nil (by simp [hpc, continuing]); exact absurd this hl
+  next it nx hpc =>
+    have hnu : s.rx ≠ .unbuilt := by
+      intro h; have := (c3 h).1; simp [hpc] at this
+    have hne : s.ended = false := by
+      cases he : s.ended with
+      | false => rfl
+      | true => have := (c6 he).1; simp [hpc] at this
+    have her : s.errs = [] := by
+      cases he : s.errs with
+      | nil => rfl
+      | cons a b => have := (c7 (by simp [he])).1; simp [hpc] at this
+    have hce : chanErr s.chan = false := by
+      cases he : chanErr s.chan with
+      | false => rfl
+      | true => have := c8 he; simp [hpc] at this
+    have hc : s.ctorErr = none := by
+      cases hce : s.ctorErr with
+      | none => rfl
+      | some e => have := (c5 (by simp [hce])).2; simp [hpc] at this
+    split
+    next hrx =>
+      refine ⟨?_, c2, ?_, ?_, ?_, ?_, ?_, ?_, ?_, ?_, c11⟩ <;>
+        simp [hrx, hne, her, hce, hc, pcRows, pcPages, pcErr]
+    next hrx =>
+      split
+      · exact ⟨c1, c2, c3, c4, c5, c6, c7, c8, c9, c10, c11⟩
+      next hch =>
+        have hnd : s.rx ≠ .dropped := by
+          intro h; exact hrx h
+        have c1 := c1 hnd
+        have c9 := c9 hnd
+        simp only [hpc, hch, chanRows, chanPages, List.append_nil, Nat.add_zero] at c1 c9
+        cases it with
+        | page r =>
+          refine ⟨?_, c2, ?_, ?_, ?_, ?_, ?_, ?_, ?_, ?_, ?_⟩ <;>
+            simp [hnu, hnd, hne, her, hce, hc, chanRows, chanPages, chanErr]
+          · simpa [pcRows, List.append_assoc] using c1
+          · simpa [pcPages] using c9
+          · intro hl; have := c10 hl; simp_all [pcErr]
+        | err e =>
+          have hnx := hA.pc_err e nx hpc
+          refine ⟨?_, c2, ?_, ?_, ?_, ?_, ?_, ?_, ?_, ?_, ?_⟩ <;>
+            simp [hnu, hnd, hne, her, hce, hc, hnx, pcAfter, chanRows, chanPages, chanErr, pcRows, pcPages, pcErr]
+          · simpa [pcRows, List.append_assoc] using c1
+          · simpa [pcPages] using c9
+  next => exact ⟨c1, c2, c3, c4, c5, c6, c7, c8, c9, c10, c11⟩
+
+/-! ### consumed attempt outcomes; order of the request log -/
+
+structure FInv (faults0 : List Attempt) (s : St) : Prop where
+  consumed : ∃ pre, faults0 = pre ++ s.faults ∧ (s.ignored = true → Attempt.ignore ∈ pre)
+  log_sorted : s.log.Pairwise (fun (a b : Nat × Option PState) => a.1 ≤ b.1)
+
+theorem finv_init (pages : List Page) (faults : List Attempt) : FInv faults (init pages faults) :=
+  ⟨⟨[], by simp [init]⟩, by simp [init]⟩
+
+private theorem consumed_tail {faults0 pre : List Attempt} {fs : List Attempt}
+    (h : faults0 = pre ++ fs) : faults0 = (pre ++ fs.head?.toList) ++ fs.tail := by
+  cases fs <;> simp [h]
+
+private theorem sorted_append {log : List (Nat × Option PState)} {k : Nat} {st : Option PState} {pages}
+    (hs : log.Pairwise (fun a b => a.1 ≤ b.1)) (hl : LogOk pages log k) :
+    (log ++ [(k, st)]).Pairwise (fun a b => a.1 ≤ b.1) := by
+  rw [List.pairwise_append]
+  refine ⟨hs, by simp, ?_⟩
+  intro a ha b hb
+  simp only [List.mem_singleton] at hb
+  subst hb
+  exact (hl a ha).2
+
+theorem finv_prod {pages : List Page} {faults0 : List Attempt} {s : St} (hA : PInvA pages s)
+    (h : FInv faults0 s) : FInv faults0 (stepProd s) := by
+  obtain ⟨⟨pre, hpre, hign⟩, hs⟩ := h
+  have hcons := consumed_tail hpre
+  have hsort : ∀ st : Option PState,
+      (s.log ++ [(s.served, st)]).Pairwise (fun (a b : Nat × Option PState) => a.1 ≤ b.1) :=
+    fun st => sorted_append hs hA.log_ok
+  have hhead : s.faults.headD .ok = .ignore → Attempt.ignore ∈ pre ++ s.faults.head?.toList := by
+    intro h
+    cases hf : s.faults with
+    | nil => simp [hf] at h
+    | cons a t => simp [hf] at h; simp [h]
+  have hkeep : s.ignored = true → Attempt.ignore ∈ pre ++ s.faults.head?.toList :=
+    fun h => List.mem_append_left _ (hign h)
+  unfold stepProd
+  split
+  · split
+    · exact ⟨⟨_, hcons, hkeep⟩, hsort _⟩
+    · exact ⟨⟨_, hcons, hkeep⟩, hsort _⟩
+    next hh => exact ⟨⟨_, hcons, fun _ => hhead hh⟩, hsort _⟩
+    · exact ⟨⟨_, hcons, hkeep⟩, hsort _⟩
+  · split
+    · exact ⟨⟨_, hcons, hkeep⟩, hsort _⟩
+    · exact ⟨⟨_, hcons, hkeep⟩, hsort _⟩
+    next hh => exact ⟨⟨_, hcons, fun _ => hhead hh⟩, hsort _⟩
+    · exact ⟨⟨_, hcons, hkeep⟩, hsort _⟩
+  · split
+    · exact ⟨⟨pre, hpre, hign⟩, hs⟩
+    · split
+      · exact ⟨⟨pre, hpre, hign⟩, hs⟩
+      · exact ⟨⟨pre, hpre, hign⟩, hs⟩
+  · exact ⟨⟨pre, hpre, hign⟩, hs⟩
+
+theorem finv_poll {faults0 : List Attempt} {s : St} (h : FInv faults0 s) : FInv faults0 (stepPoll s) := by
+  obtain ⟨h1, h2⟩ := h
+  unfold stepPoll
+  repeat' split
+  all_goals exact ⟨h1, h2⟩
+
+theorem finv_drop {faults0 : List Attempt} {s : St} (h : FInv faults0 s) : FInv faults0 (stepDrop s) := by
+  obtain ⟨h1, h2⟩ := h
+  unfold stepDrop
+  split
+  all_goals exact ⟨h1, h2⟩
+
+
+
+/-! ### a final failure reaches the consumer -/
+
+/-- The failure `e` is on its way to the consumer, or has arrived, or the consumer is gone. -/
+def Surfaced (s : St) (e : String) : Prop :=
+  s.errs = [e] ∨ s.ctorErr = some e ∨ s.chan = some (.err e) ∨ s.pc = .send (.err e) none ∨ s.rx = .dropped
+
+structure SInv (faults0 : List Attempt) (s : St) : Prop where
+  failed : ∃ pre, faults0 = pre ++ s.faults ∧ ∀ e, Attempt.fail e ∈ pre → Surfaced s e
+
+theorem sinv_init (pages : List Page) (faults : List Attempt) : SInv faults (init pages faults) :=
+  ⟨⟨[], by simp [init]⟩⟩
+
+private theorem consumed_tail' {faults0 pre : List Attempt} {fs : List Attempt}
+    (h : faults0 = pre ++ fs) : faults0 = (pre ++ fs.head?.toList) ++ fs.tail := by
+  cases fs <;> simp [h]
+
+/-- While the producer is still fetching, no final failure has been consumed (unless the pager was dropped). -/
+private theorem no_fail_while_fetching {pages : List Page} {s : St} (hc : CInv pages s) {e : String}
+    (hs : Surfaced s e) (hpc : s.pc = .first ∨ ∃ st, s.pc = .fetch st) : s.rx = .dropped := by
+  rcases hs with h | h | h | h | h
+  · have := (hc.errs_q (by simp [h])).1
+    rcases hpc with hp | ⟨st, hp⟩ <;> simp [hp] at this
+  · have := (hc.ctor (by simp [h])).2
+    rcases hpc with hp | ⟨st, hp⟩ <;> simp [hp] at this
+  · have := hc.chan_err (by simp [chanErr, h])
+    rcases hpc with hp | ⟨st, hp⟩ <;> simp [hp] at this
+  · rcases hpc with hp | ⟨st, hp⟩ <;> simp [hp] at h
+  · exact h
+
+theorem sinv_prod {pages : List Page} {faults0 : List Attempt} {s : St} (hc : CInv pages s)
+    (h : SInv faults0 s) : SInv faults0 (stepProd s) := by
+  obtain ⟨pre, hpre, hf⟩ := h.failed
+  have hcons := consumed_tail' hpre
+  have hhead : ∀ a, s.faults.headD .ok = a → ∀ e, Attempt.fail e ∈ s.faults.head?.toList → a = .fail e := by
+    intro a h e he
+    cases hfs : s.faults with
+    | nil => simp [hfs] at he
+    | cons x t => simp [hfs] at h he; rw [← h, he]
+  unfold stepProd
+  split
+  next hpc =>
+    have hrx : s.rx = .unbuilt := hc.first_unbuilt hpc
+    have hold : ∀ e, Attempt.fail e ∈ pre → False := by
+      intro e he
+      have := no_fail_while_fetching hc (hf e he) (Or.inl hpc)
+      simp [hrx] at this
+    split
+    next hh =>
+      refine ⟨⟨_, hcons, ?_⟩⟩
+      intro e he
+      rcases List.mem_append.mp he with h1 | h1
+      · exact absurd h1 (hold e)
+      · have := hhead _ hh e h1; simp at this
+    next e0 hh =>
+      refine ⟨⟨_, hcons, ?_⟩⟩
+      intro e he
+      rcases List.mem_append.mp he with h1 | h1
+      · exact absurd h1 (hold e)
+      · have := hhead _ hh e h1
+        simp only [Attempt.fail.injEq] at this
+        right; left; simp [this]
+    next hh =>
+      refine ⟨⟨_, hcons, ?_⟩⟩
+      intro e he
+      rcases List.mem_append.mp he with h1 | h1
+      · exact absurd h1 (hold e)
+      · have := hhead _ hh e h1; simp at this
+    next hh =>
+      refine ⟨⟨_, hcons, ?_⟩⟩
+      intro e he
+      rcases List.mem_append.mp he with h1 | h1
+      · exact absurd h1 (hold e)
+      · have := hhead _ hh e h1; simp at this
+  next st hpc =>
+    have hold : ∀ e, Attempt.fail e ∈ pre → s.rx = .dropped := fun e he =>
+      no_fail_while_fetching hc (hf e he) (Or.inr ⟨st, hpc⟩)
+    split
+    next hh =>
+      refine ⟨⟨_, hcons, ?_⟩⟩
+      intro e he
+      rcases List.mem_append.mp he with h1 | h1
+      · exact Or.inr (Or.inr (Or.inr (Or.inr (hold e h1))))
+      · have := hhead _ hh e h1; simp at this
+    next e0 hh =>
+      refine ⟨⟨_, hcons, ?_⟩⟩
+      intro e he
+      rcases List.mem_append.mp he with h1 | h1
+      · exact Or.inr (Or.inr (Or.inr (Or.inr (hold e h1))))
+      · have := hhead _ hh e h1
+        simp only [Attempt.fail.injEq] at this
+        right; right; right; left; simp [this]
+    next hh =>
+      refine ⟨⟨_, hcons, ?_⟩⟩
+      intro e he
+      rcases List.mem_append.mp he with h1 | h1
+      · exact Or.inr (Or.inr (Or.inr (Or.inr (hold e h1))))
+      · have := hhead _ hh e h1; simp at this
+    next hh =>
+      refine ⟨⟨_, hcons, ?_⟩⟩
+      intro e he
+      rcases List.mem_append.mp he with h1 | h1
+      · exact Or.inr (Or.inr (Or.inr (Or.inr (hold e h1))))
+      · have := hhead _ hh e h1; simp at this
+  next it nx hpc =>
+    split
+    next hrx =>
+      exact ⟨⟨pre, hpre, fun e he => Or.inr (Or.inr (Or.inr (Or.inr hrx)))⟩⟩
+    next hrx =>
+      split
+      · exact ⟨⟨pre, hpre, hf⟩⟩
+      next hch =>
+        refine ⟨⟨pre, hpre, ?_⟩⟩
+        intro e he
+        rcases hf e he with h | h | h | h | h
+        · have := (hc.errs_q (by simp [h])).1; simp [hpc] at this
+        · have := (hc.ctor (by simp [h])).2; simp [hpc] at this
+        · simp [hch] at h
+        · rw [hpc] at h
+          simp only [PC.send.injEq] at h
+          right; right; left; simp [h.1]
+        · exact absurd h (by simpa using hrx)
+  next => exact ⟨⟨pre, hpre, hf⟩⟩
+
+theorem sinv_poll {pages : List Page} {faults0 : List Attempt} {s : St} (hc : CInv pages s)
+    (h : SInv faults0 s) : SInv faults0 (stepPoll s) := by
+  obtain ⟨pre, hpre, hf⟩ := h.failed
+  unfold stepPoll
+  split
+  next hrx =>
+    split
+    next r rest hcur => exact ⟨⟨pre, hpre, hf⟩⟩
+    next hcur =>
+      split
+      next hch =>
+        refine ⟨⟨pre, hpre, ?_⟩⟩
+        intro e he
+        rcases hf e he with h | h | h | h | h
+        · exact Or.inl h
+        · exact Or.inr (Or.inl h)
+        · simp [hch] at h
+        · exact Or.inr (Or.inr (Or.inr (Or.inl h)))
+        · exact Or.inr (Or.inr (Or.inr (Or.inr h)))
+      next r rest hch =>
+        refine ⟨⟨pre, hpre, ?_⟩⟩
+        intro e he
+        rcases hf e he with h | h | h | h | h
+        · exact Or.inl h
+        · exact Or.inr (Or.inl h)
+        · simp [hch] at h
+        · exact Or.inr (Or.inr (Or.inr (Or.inl h)))
+        · exact Or.inr (Or.inr (Or.inr (Or.inr h)))
+      next e0 hch =>
+        refine ⟨⟨pre, hpre, ?_⟩⟩
+        intro e he
+        have hpc := hc.chan_err (by simp [chanErr, hch])
+        have herrs : s.errs = [] := by
+          cases hs : s.errs with
+          | nil => rfl
+          | cons a b => have := (hc.errs_q (by simp [hs])).2.1; simp [hch] at this
+        rcases hf e he with h | h | h | h | h
+        · simp [herrs] at h
+        · have := (hc.ctor (by simp [h])).1; simp [hrx] at this
+        · simp only [hch, Option.some.injEq, Item.err.injEq] at h
+          left; simp [herrs, h]
+        · simp [hpc] at h
+        · simp [hrx] at h
+      next hch =>
+        split
+        · exact ⟨⟨pre, hpre, hf⟩⟩
+        · exact ⟨⟨pre, hpre, hf⟩⟩
+  next => exact ⟨⟨pre, hpre, hf⟩⟩
+
+theorem sinv_drop {faults0 : List Attempt} {s : St} (h : SInv faults0 s) : SInv faults0 (stepDrop s) := by
+  obtain ⟨pre, hpre, hf⟩ := h.failed
+  unfold stepDrop
+  split
+  · exact ⟨⟨pre, hpre, fun e he => Or.inr (Or.inr (Or.inr (Or.inr rfl)))⟩⟩
+  · exact ⟨⟨pre, hpre, hf⟩⟩
+
+
+
+/-! ### only pages the server announced are ever asked for -/
+
+/-- Every page before `k` came with a paging state (so page `k` exists from the server's point of view). -/
+def Reach (pages : List Page) (k : Nat) : Prop := ∀ j, j < k → (pageAt pages j).2 ≠ none
+
+theorem reach_zero (pages : List Page) : Reach pages 0 := fun j h => absurd h (Nat.not_lt_zero j)
+
+theorem reach_succ {pages : List Page} {k : Nat} (h : Reach pages k) (hk : (pageAt pages k).2 ≠ none) :
+    Reach pages (k + 1) := by
+  intro j hj
+  rcases Nat.lt_succ_iff_lt_or_eq.mp hj with h1 | h1
+  · exact h j h1
+  · rw [h1]; exact hk
+
+structure RInv (pages : List Page) (s : St) : Prop where
+  log_reach : ∀ e ∈ s.log, Reach pages e.1
+  pc_reach : continuing s.pc = true → Reach pages s.served
+
+theorem rinv_init (pages : List Page) (faults : List Attempt) : RInv pages (init pages faults) :=
+  ⟨by simp [init], fun _ => by simpa [init] using reach_zero pages⟩
+
+theorem rinv_prod {pages : List Page} {s : St} (hA : PInvA pages s) (h : RInv pages s) :
+    RInv pages (stepProd s) := by
+  obtain ⟨h1, h2⟩ := h
+  have hhd : s.todo.headD ([], none) = pageAt pages s.served := by rw [hA.todo_eq, headD_drop]
+  have hlog : ∀ st : Option PState, continuing s.pc = true →
+      ∀ e ∈ s.log ++ [(s.served, st)], Reach pages e.1 := by
+    intro st hc e he
+    simp only [List.mem_append, List.mem_singleton] at he
+    rcases he with he | he
+    · exact h1 e he
+    · rw [he]; exact h2 hc
+  unfold stepProd
+  split
+  next hpc =>
+    have hc : continuing s.pc = true := by simp [hpc, continuing]
+    split
+    · exact ⟨hlog _ hc, fun _ => h2 hc⟩
+    · exact ⟨hlog _ hc, by simp [continuing]⟩
+    · exact ⟨hlog _ hc, by simp [continuing]⟩
+    · refine ⟨hlog _ hc, ?_⟩
+      simp only [hhd]
+      cases hp : (pageAt pages s.served).2 with
+      | none => simp [pcAfter, continuing]
+      | some st => intro _; exact reach_succ (h2 hc) (by simp [hp])
+  next st hpc =>
+    have hc : continuing s.pc = true := by simp [hpc, continuing]
+    split
+    · exact ⟨hlog _ hc, fun _ => h2 hc⟩
+    · exact ⟨hlog _ hc, by simp [continuing]⟩
+    · exact ⟨hlog _ hc, by simp [continuing]⟩
+    · refine ⟨hlog _ hc, ?_⟩
+      simp only [hhd]
+      cases hp : (pageAt pages s.served).2 with
+      | none => simp [continuing]
+      | some st => intro _; exact reach_succ (h2 hc) (by simp [hp])
+  next it nx hpc =>
+    split
+    · exact ⟨h1, by simp [continuing]⟩
+    · split
+      · exact ⟨h1, h2⟩
+      · refine ⟨h1, ?_⟩
+        cases nx with
+        | none => simp [pcAfter, continuing]
+        | some st => intro _; exact h2 (by simp [hpc, continuing])
+  next => exact ⟨h1, h2⟩
+
+theorem rinv_poll {pages : List Page} {s : St} (h : RInv pages s) : RInv pages (stepPoll s) := by
+  obtain ⟨h1, h2⟩ := h
+  unfold stepPoll
+  repeat' split
+  all_goals exact ⟨h1, h2⟩
+
+theorem rinv_drop {pages : List Page} {s : St} (h : RInv pages s) : RInv pages (stepDrop s) := by
+  obtain ⟨h1, h2⟩ := h
+  unfold stepDrop
+  split
+  all_goals exact ⟨h1, h2⟩
+
+/-! ### the whole invariant, for every schedule -/
+
+structure Inv (pages : List Page) (faults0 : List Attempt) (s : St) : Prop where
+  a : PInvA pages s
+  b : PInvB pages s
+  c : CInv pages s
+  f : FInv faults0 s
+  sv : SInv faults0 s
+  rc : RInv pages s
+
+theorem inv_init (pages : List Page) (faults : List Attempt) : Inv pages faults (init pages faults) :=
+  ⟨pinvA_init _ _, pinvB_init _ _, cinv_init _ _, finv_init _ _, sinv_init _ _, rinv_init _ _⟩
+
+theorem inv_step {pages : List Page} {faults0 : List Attempt} {s : St} (h : Inv pages faults0 s) (op : Op) :
+    Inv pages faults0 (step s op) := by
+  cases op
+  · exact ⟨pinvA_prod h.a, pinvB_prod h.a h.b, cinv_prod h.a h.b h.c, finv_prod h.a h.f,
+      sinv_prod h.c h.sv, rinv_prod h.a h.rc⟩
+  · exact ⟨pinvA_poll h.a, pinvB_poll h.b, cinv_poll h.b h.c, finv_poll h.f, sinv_poll h.c h.sv, rinv_poll h.rc⟩
+  · exact ⟨pinvA_drop h.a, pinvB_drop h.b, cinv_drop h.c, finv_drop h.f, sinv_drop h.sv, rinv_drop h.rc⟩
+
+theorem inv_run {pages : List Page} {faults0 : List Attempt} {s : St} (h : Inv pages faults0 s) (ops : List Op) :
+    Inv pages faults0 (run s ops) := by
+  induction ops generalizing s with
+  | nil => exact h
+  | cons op ops ih => exact ih (inv_step h op)
+
+theorem inv_reachable (pages : List Page) (faults : List Attempt) (ops : List Op) :
+    Inv pages faults (run (init pages faults) ops) := inv_run (inv_init pages faults) ops
+
+/-! ### termination measure -/
+
+theorem todo_measure (todo : List Page) :
+    5 * todo.tail.length + todoRows todo.tail + (todo.headD ([], none)).1.length + (if todo = [] then 0 else 5)
+      = 5 * todo.length + todoRows todo := by
+  cases todo with
+  | nil => simp [todoRows]
+  | cons p t => simp [todoRows]; omega
+
+theorem pcRank_pcAfter_le (nx : Option PState) : pcRank (pcAfter nx) ≤ 4 := by
+  cases nx <;> simp [pcAfter, pcRank]
+
+theorem pcItemRows_pcAfter (nx : Option PState) : pcItemRows (pcAfter nx) = 0 := by
+  cases nx <;> simp [pcAfter, pcItemRows]
+
+theorem retry_nonempty {fs : List Attempt} {a : Attempt} (h : fs.headD .ok = a) (ha : a ≠ .ok) :
+    fs.tail.length + 1 = fs.length := by
+  cases fs with
+  | nil => simp at h; exact absurd h.symm ha
+  | cons x t => simp
+
+theorem prod_decreases (s : St) : measure (stepProd s) < measure s ∨ stepProd s = s := by
+  have htl : s.faults.tail.length ≤ s.faults.length := by simp
+  unfold stepProd
+  split
+  next hpc =>
+    left
+    split
+    next h => have := retry_nonempty h (by simp); simp [measure, hpc]; omega
+    next h => have := retry_nonempty h (by simp); simp [measure, hpc, pcRank, pcItemRows]; omega
+    next h => have := retry_nonempty h (by simp); simp [measure, hpc, pcRank, pcItemRows]; split <;> omega
+    next h =>
+      cases hto : s.todo with
+      | nil => simp [measure, hpc, hto, pcAfter, pcRank, pcItemRows, todoRows]; split <;> omega
+      | cons p t =>
+        cases hp : p.2 <;>
+          (simp [measure, hpc, hto, hp, pcAfter, pcRank, pcItemRows, todoRows]; split <;> omega)
+  next st hpc =>
+    left
+    split
+    next h => have := retry_nonempty h (by simp); simp [measure, hpc]; omega
+    next h => have := retry_nonempty h (by simp); simp [measure, hpc, pcRank, pcItemRows, itemRows]; omega
+    next h => have := retry_nonempty h (by simp); simp [measure, hpc, pcRank, pcItemRows]; omega
+    next h =>
+      cases hto : s.todo with
+      | nil => simp [measure, hpc, hto, pcRank, pcItemRows, itemRows, todoRows]; omega
+      | cons p t =>
+        cases hp : p.2 <;>
+          (simp [measure, hpc, hto, hp, pcRank, pcItemRows, itemRows, todoRows]; omega)
+  next it nx hpc =>
+    split
+    · left
+      simp [measure, hpc, pcRank, pcItemRows, *]
+      cases nx <;> simp [pcRank] <;> omega
+    · split
+      · right; rfl
+      next hch =>
+        left
+        have h2 := pcItemRows_pcAfter nx
+        simp only [measure, hpc, pcItemRows, h2, hch]
+        cases nx <;> simp [pcAfter, pcRank] <;> omega
+  next => right; rfl
+
+theorem poll_decreases (s : St) : measure (stepPoll s) < measure s ∨ stepPoll s = s := by
+  unfold stepPoll
+  split
+  next hrx =>
+    split
+    next r rest hcur => left; simp [measure, hcur]
+    next hcur =>
+      split
+      next hch => left; simp [measure, hch, itemRows]
+      next r rest hch => left; simp [measure, hch, hcur, itemRows]; omega
+      next e hch => left; simp [measure, hch, itemRows]
+      next hch =>
+        split
+        next hpc =>
+          cases he : s.ended with
+          | true => right; cases s; simp_all
+          | false => left; simp [measure, he]
+        next => right; rfl
+  next => right; rfl
+
+theorem drop_decreases (s : St) : measure (stepDrop s) < measure s ∨ stepDrop s = s := by
+  unfold stepDrop
+  split
+  next hrx => left; simp [measure, hrx]; split <;> omega
+  next => right; rfl
+
+theorem step_decreases (s : St) (op : Op) : measure (step s op) < measure s ∨ step s op = s := by
+  cases op
+  · exact prod_decreases s
+  · exact poll_decreases s
+  · exact drop_decreases s
+
+/-- No deadlock: as long as the pager is alive (or being built) and the stream has not ended, the
+producer or the consumer can move. -/
+theorem no_deadlock {pages : List Page} {s : St} (hc : CInv pages s)
+    (hu : s.rx = .unbuilt → s.pc = .first ∨ s.ctorErr.isSome = true) (hrx : s.rx ≠ .dropped)
+    (hend : s.ended = false) (hctor : s.ctorErr.isSome = false) :
+    stepProd s ≠ s ∨ stepPoll s ≠ s := by
+  cases hpc : s.pc with
+  | first =>
+    left; intro h
+    have : (stepProd s).log.length = s.log.length := by rw [h]
+    unfold stepProd at this
+    simp only [hpc] at this
+    split at this <;> simp at this
+  | fetch st =>
+    left; intro h
+    have : (stepProd s).log.length = s.log.length := by rw [h]
+    unfold stepProd at this
+    simp only [hpc] at this
+    split at this <;> simp at this
+  | send it nx =>
+    cases hch : s.chan with
+    | none =>
+      left; intro h
+      have : (stepProd s).chan = s.chan := by rw [h]
+      unfold stepProd at this
+      cases hr : s.rx <;> simp_all
+    | some it' =>
+      right; intro h
+      have hne : s.rx ≠ .unbuilt := by
+        intro hu; have := (hc.unbuilt hu).1; simp [hpc] at this
+      have halive : s.rx = .alive := by
+        cases hr : s.rx <;> simp_all
+      cases hcur : s.cur with
+      | cons r rest =>
+        have : (stepPoll s).cur = s.cur := by rw [h]
+        unfold stepPoll at this
+        simp [halive, hcur] at this
+      | nil =>
+        have : (stepPoll s).chan = s.chan := by rw [h]
+        unfold stepPoll at this
+        simp only [halive, hcur, hch] at this
+        cases it' with
+        | page rows => cases rows <;> simp at this
+        | err e => simp at this
+  | done =>
+    right; intro h
+    have halive : s.rx = .alive := by
+      cases hr : s.rx with
+      | alive => rfl
+      | dropped => exact absurd hr hrx
+      | unbuilt => have := hu hr; simp [hpc, hctor] at this
+    have : (stepPoll s).ended = s.ended := by rw [h]
+    unfold stepPoll at this
+    simp only [halive, hpc] at this
+    cases hcur : s.cur with
+    | cons r rest =>
+      have h2 : (stepPoll s).cur = s.cur := by rw [h]
+      unfold stepPoll at h2
+      simp [halive, hcur] at h2
+    | nil =>
+      cases hch : s.chan with
+      | none => simp [hcur, hch, hend] at this
+      | some it =>
+        have h2 : (stepPoll s).chan = s.chan := by rw [h]
+        unfold stepPoll at h2
+        simp only [halive, hcur, hch] at h2
+        cases it with
+        | page rows => cases rows <;> simp at h2
+        | err e => simp at h2
+
+/-! ### the round-robin schedule reaches the end -/
+
+theorem prod_rx (s : St) (h : s.rx ≠ .dropped) : (stepProd s).rx ≠ .dropped := by
+  unfold stepProd
+  repeat' split
+  all_goals simp_all
+
+theorem poll_rx (s : St) : (stepPoll s).rx = s.rx := by
+  unfold stepPoll
+  repeat' split
+  all_goals rfl
+
+structure UInv (s : St) : Prop where
+  unbuilt : s.rx = .unbuilt → s.pc = .first ∨ s.ctorErr.isSome = true
+
+theorem uinv_init (pages : List Page) (faults : List Attempt) : UInv (init pages faults) := ⟨by simp [init]⟩
+
+theorem uinv_step {s : St} (h : UInv s) (op : Op) : UInv (step s op) := by
+  obtain ⟨h⟩ := h
+  cases op
+  · simp only [step]
+    unfold stepProd
+    split
+    · split <;> exact ⟨by simp_all⟩
+    · have : s.pc ≠ .first := by simp_all
+      split <;> exact ⟨by simp_all⟩
+    · have : s.pc ≠ .first := by simp_all
+      split
+      · exact ⟨by simp_all⟩
+      · split
+        · exact ⟨h⟩
+        · exact ⟨by simp_all⟩
+    · exact ⟨h⟩
+  · simp only [step]
+    unfold stepPoll
+    repeat' split
+    all_goals exact ⟨by simp_all⟩
+  · simp only [step]
+    unfold stepDrop
+    split
+    · exact ⟨by simp_all⟩
+    · exact ⟨h⟩
+
+theorem uinv_run {s : St} (h : UInv s) (ops : List Op) : UInv (run s ops) := by
+  induction ops generalizing s with
+  | nil => exact h
+  | cons op ops ih => exact ih (uinv_step h op)
+
+theorem round_decreases {pages : List Page} {s : St} (hc : CInv pages s) (hu : UInv s) (hrx : s.rx ≠ .dropped)
+    (hend : s.ended = false) (hctor : s.ctorErr.isSome = false) :
+    measure (stepPoll (stepProd s)) < measure s := by
+  rcases prod_decreases s with h1 | h1
+  · rcases poll_decreases (stepProd s) with h2 | h2
+    · omega
+    · rw [h2]; exact h1
+  · rw [h1]
+    rcases poll_decreases s with h2 | h2
+    · exact h2
+    · rcases no_deadlock hc hu.unbuilt hrx hend hctor with h | h
+      · exact absurd h1 h
+      · exact absurd h2 h
+
+theorem runEager_ends {pages : List Page} {faults0 : List Attempt} :
+    ∀ (n : Nat) (s : St), Inv pages faults0 s → UInv s → s.rx ≠ .dropped → measure s ≤ n →
+      (runEager n s).ended = true ∨ (runEager n s).ctorErr.isSome = true := by
   intro n
   induction n with
-  | zero => intro fresh flag _ o ho; simp [pageRows] at ho
+  | zero =>
+    intro s _ _ _ hm
+    simp only [runEager]
+    cases he : s.ended with
+    | true => simp
+    | false => simp [measure, he] at hm
   | succ n ih =>
-    intro fresh flag h o ho
-    rw [pageRows] at ho
-    cases hs : streamRow ok fresh flag with
-    | mk flag' err =>
-      rw [hs] at ho
-      cases err with
-      | true =>
-        simp only [List.mem_singleton] at ho
-        subst ho
-        right
-        refine ⟨rfl, ?_⟩
-        cases ok <;> cases fresh <;> cases flag <;> simp [streamRow] at hs ⊢
+    intro s hi hu hrx hm
+    simp only [runEager]
+    cases he : s.ended with
+    | true => simp [he]
+    | false =>
+      cases hc : s.ctorErr.isSome with
+      | true => simp [hc]
       | false =>
-        have hok : ok = true := by
-          rcases h with h | h | h
-          · subst h; cases ok <;> cases flag <;> simp [streamRow] at hs ⊢
-          · subst h; cases ok <;> cases fresh <;> simp [streamRow] at hs ⊢
-          · exact h
-        simp only at ho
-        rcases List.mem_cons.mp ho with rfl | hmem
-        · exact .inl ⟨rfl, hok⟩
-        · exact ih false flag' (.inr (.inr hok)) o hmem
+        simp only [he, hc, Bool.or_self, Bool.false_eq_true, if_false]
+        have hdec := round_decreases hi.c hu hrx he hc
+        have hi' : Inv pages faults0 (stepPoll (stepProd s)) := inv_step (inv_step hi .prod) .poll
+        have hu' : UInv (stepPoll (stepProd s)) := uinv_step (uinv_step hu .prod) .poll
+        have hrx' : (stepPoll (stepProd s)).rx ≠ .dropped := by
+          rw [poll_rx]; exact prod_rx s hrx
+        exact ih _ hi' hu' hrx' (by omega)
 
-/-- Every output of the later pages is about one of them, and legitimate for it. -/
-theorem streamPages_ok (check : List (String × CqlTy) → Bool) : ∀ (ps : List PageM) (i : Nat) (flag : Bool) (o : StreamOut),
-    o ∈ streamPages check i ps flag → ∃ k p, ps[k]? = some p ∧ OutOk (check p.specs) (i + k) o := by
-  intro ps
-  induction ps with
-  | nil => intro i flag o ho; simp [streamPages] at ho
-  | cons p ps ih =>
-    intro i flag o ho
-    rw [streamPages] at ho
-    split at ho
-    · obtain ⟨k, q, hq, hok⟩ := ih (i + 1) flag o ho
-      exact ⟨k + 1, q, by simpa using hq, by rw [show i + (k + 1) = i + 1 + k by omega]; exact hok⟩
-    · have hrows := pageRows_ok (check p.specs) i p.rows true flag (.inl rfl)
-      cases hp : pageRows (check p.specs) i p.rows true flag with
-      | mk os r =>
-        rw [hp] at ho hrows
-        cases r with
-        | none => exact ⟨0, p, rfl, hrows o ho⟩
-        | some flag' =>
-          simp only at ho
-          rcases List.mem_append.mp ho with h | h
-          · exact ⟨0, p, rfl, hrows o h⟩
-          · obtain ⟨k, q, hq, hok⟩ := ih (i + 1) flag' o h
-            exact ⟨k + 1, q, by simpa using hq, by rw [show i + (k + 1) = i + 1 + k by omega]; exact hok⟩
+theorem runEager_is_run : ∀ (n : Nat) (s : St), ∃ ops, runEager n s = run s ops ∧ Op.drop ∉ ops := by
+  intro n
+  induction n with
+  | zero => intro s; exact ⟨[], rfl, by simp⟩
+  | succ n ih =>
+    intro s
+    simp only [runEager]
+    split
+    · exact ⟨[], rfl, by simp⟩
+    · obtain ⟨ops, h, hd⟩ := ih (stepPoll (stepProd s))
+      exact ⟨.prod :: .poll :: ops, by simp [run, step, h], by simp [hd]⟩
 
-theorem typedStream_ok (check : List (String × CqlTy) → Bool) (pages : List PageM) (outs : List StreamOut)
-    (h : typedStream check pages = some outs) (o : StreamOut) (ho : o ∈ outs) :
-    ∃ k p, pages[k]? = some p ∧ OutOk (check p.specs) k o := by
-  cases pages with
-  | nil => simp [typedStream] at h; subst h; simp at ho
-  | cons p ps =>
-    rw [typedStream] at h
-    split at h
-    · cases h
-    · rename_i hc
-      have hpass : check p.specs = true := by simpa using hc
-      have hrows := pageRows_ok (check p.specs) 0 p.rows false true (.inr (.inr hpass))
-      cases hp : pageRows (check p.specs) 0 p.rows false true with
-      | mk os r =>
-        rw [hp] at h hrows
-        cases r with
-        | none =>
-          simp only [Option.some.injEq] at h; subst h
-          exact ⟨0, p, rfl, hrows o ho⟩
-        | some flag =>
-          simp only [Option.some.injEq] at h; subst h
-          rcases List.mem_append.mp ho with h1 | h1
-          · exact ⟨0, p, rfl, hrows o h1⟩
-          · obtain ⟨k, q, hq, hok⟩ := streamPages_ok check ps 1 flag o h1
-            exact ⟨k + 1, q, by simpa using hq, by rw [show k + 1 = 1 + k by omega]; exact hok⟩
+/-! ### after the pager was dropped; after the end -/
 
-end ScyllaVerif.Proofs.Pager
+def fetching : PC → Bool
+  | .first => true
+  | .fetch _ => true
+  | _ => false
+
+/-- What can still happen once the pager is dropped, relative to the state `s0` at the drop. -/
+structure Dropped (s0 s : St) : Prop where
+  rx : s.rx = .dropped
+  not_first : s.pc ≠ .first
+  chan : s.chan = none
+  delivered : s.delivered = s0.delivered
+  log : ∀ e ∈ s.log, e ∈ s0.log ∨ e.1 = s0.served
+  served : (fetching s.pc = true ∧ fetching s0.pc = true ∧ s.served = s0.served) ∨
+    (fetching s.pc = false ∧ s.served ≤ s0.served + (if fetching s0.pc then 1 else 0))
+
+theorem dropped_step {s0 s : St} (h : Dropped s0 s) (op : Op) : Dropped s0 (step s op) := by
+  obtain ⟨h1, h2, h3, h4, h5, h6⟩ := h
+  cases op
+  · simp only [step]
+    unfold stepProd
+    split
+    next hpc => exact absurd hpc h2
+    next st hpc =>
+      have h6' : s.served = s0.served := by
+        rcases h6 with h6 | h6
+        · exact h6.2.2
+        · simp [hpc, fetching] at h6
+      have h6f : fetching s0.pc = true := by
+        rcases h6 with h6 | h6
+        · exact h6.2.1
+        · simp [hpc, fetching] at h6
+      have hlog : ∀ e ∈ s.log ++ [(s.served, st)], e ∈ s0.log ∨ e.1 = s0.served := by
+        intro e he
+        simp only [List.mem_append, List.mem_singleton] at he
+        rcases he with he | he
+        · exact h5 e he
+        · right; rw [he]; exact h6'
+      split
+      · exact ⟨h1, h2, h3, h4, hlog, Or.inl ⟨by simp [hpc, fetching], h6f, h6'⟩⟩
+      · exact ⟨h1, by simp, h3, h4, hlog, Or.inr ⟨by simp [fetching], by simp; omega⟩⟩
+      · exact ⟨h1, by simp, h3, h4, hlog, Or.inr ⟨by simp [fetching], by simp; omega⟩⟩
+      · exact ⟨h1, by simp, h3, h4, hlog, Or.inr ⟨by simp [fetching], by simp [h6f, h6']⟩⟩
+    next it nx hpc =>
+      have h6' : s.served ≤ s0.served + (if fetching s0.pc then 1 else 0) := by
+        rcases h6 with h6 | h6
+        · simp [hpc, fetching] at h6
+        · exact h6.2
+      split
+      · exact ⟨h1, by simp, h3, h4, h5, Or.inr ⟨by simp [fetching], h6'⟩⟩
+      next hnd => exact absurd h1 (by simpa using hnd)
+    next => exact ⟨h1, h2, h3, h4, h5, h6⟩
+  · simp only [step]
+    have : stepPoll s = s := by unfold stepPoll; simp [h1]
+    rw [this]; exact ⟨h1, h2, h3, h4, h5, h6⟩
+  · simp only [step]
+    have : stepDrop s = s := by unfold stepDrop; simp [h1]
+    rw [this]; exact ⟨h1, h2, h3, h4, h5, h6⟩
+
+theorem dropped_run {s0 s : St} (h : Dropped s0 s) (ops : List Op) : Dropped s0 (run s ops) := by
+  induction ops generalizing s with
+  | nil => exact h
+  | cons op ops ih => exact ih (dropped_step h op)
+
+theorem dropped_of_drop {pages : List Page} {s : St} (hc : CInv pages s) (h : s.rx = .alive) :
+    Dropped s (stepDrop s) := by
+  have hnf : s.pc ≠ .first := by
+    intro hp; have := hc.first_unbuilt hp; simp [h] at this
+  unfold stepDrop
+  simp only [h]
+  refine ⟨rfl, hnf, rfl, rfl, fun e he => Or.inl he, ?_⟩
+  cases hf : fetching s.pc <;> simp [hf]
+
+/-- Once the producer is done, the channel empty and the current page used up, nothing more is ever
+yielded except `None`. -/
+structure Quiet (s0 s : St) : Prop where
+  pc : s.pc = .done
+  chan : s.chan = none
+  cur : s.cur = []
+  delivered : s.delivered = s0.delivered
+  errs : s.errs = s0.errs
+  log : s.log = s0.log
+
+theorem quiet_step {s0 s : St} (h : Quiet s0 s) (op : Op) : Quiet s0 (step s op) := by
+  obtain ⟨h1, h2, h3, h4, h5, h6⟩ := h
+  cases op
+  · simp only [step]
+    have : stepProd s = s := by unfold stepProd; simp [h1]
+    rw [this]; exact ⟨h1, h2, h3, h4, h5, h6⟩
+  · simp only [step]
+    unfold stepPoll
+    split
+    · simp only [h3, h2, h1]
+      exact ⟨rfl, rfl, rfl, h4, h5, h6⟩
+    · exact ⟨h1, h2, h3, h4, h5, h6⟩
+  · simp only [step]
+    unfold stepDrop
+    split
+    · exact ⟨h1, rfl, rfl, h4, h5, h6⟩
+    · exact ⟨h1, h2, h3, h4, h5, h6⟩
+
+theorem quiet_run {s0 s : St} (h : Quiet s0 s) (ops : List Op) : Quiet s0 (run s ops) := by
+  induction ops generalizing s with
+  | nil => exact h
+  | cons op ops ih => exact ih (quiet_step h op)
+
+/-! ### drop-free schedules; the measure never grows -/
+
+theorem run_no_drop_rx : ∀ (ops : List Op) (s : St), Op.drop ∉ ops → s.rx ≠ .dropped → (run s ops).rx ≠ .dropped := by
+  intro ops
+  induction ops with
+  | nil => intro s _ h; exact h
+  | cons op ops ih =>
+    intro s hnd h
+    simp only [List.mem_cons, not_or] at hnd
+    refine ih (step s op) hnd.2 ?_
+    cases op
+    · exact prod_rx s h
+    · simp only [step]; rw [poll_rx]; exact h
+    · exact absurd rfl hnd.1
+
+theorem measure_run_le (ops : List Op) (s : St) : measure (run s ops) ≤ measure s := by
+  induction ops generalizing s with
+  | nil => exact Nat.le_refl _
+  | cons op ops ih =>
+    have h1 : measure (run s (op :: ops)) ≤ measure (step s op) := ih (step s op)
+    rcases step_decreases s op with h2 | h2
+    · exact Nat.le_trans h1 (Nat.le_of_lt h2)
+    · rw [h2] at h1; exact h1
+
+theorem run_append (s : St) (a b : List Op) : run s (a ++ b) = run (run s a) b := by
+  simp [run, List.foldl_append]
+
+end ScyllaVerif.Pager
